@@ -1,5 +1,10 @@
 (** C18: the (chibi iset) model of ISet.v keeps the node invariant [wf] and refines the abstract set
-    oracle of SpecCont.v (strictly increasing lists). *)
+    oracle of SpecCont.v (strictly increasing lists).  No axioms (Print Assumptions at the end).
+    Main results: adjoin_node_wf/_contains (iset-adjoin-node!, every clause including node-split),
+    adjoin1_wf/_contains, delete1_wf/_contains, to_list_spec, contains_set_mem, adjoin1_to_list,
+    delete1_to_list, adjoin_list_refines, delete_list_refines, size_spec, adjoin_node_top_eq,
+    union2_wf/_contains/_to_list, and the negative example bad_guard_loses_500.
+    The invariant [wf] is exactly the one asked for (not strengthened). *)
 From Coq Require Import ZArith List Bool Lia Sorted.
 From ChibiV Require Import C18.SpecCont C18.ContProofs C18.ISet.
 Import ListNotations.
@@ -104,6 +109,9 @@ Lemma nmem_contains : forall s e bits m, contains (Node s e bits Nil Nil) m = nm
 Proof.
   intros s e bits m. cbn [contains]. unfold nmem. zb; cbn [andb]; try reflexivity; lia.
 Qed.
+
+Lemma nmem_range : forall s e bits m, nmem s e bits m = true -> s <= m <= e.
+Proof. intros s e bits m H. unfold nmem in H. apply andb_prop in H. destruct H as [H _]. apply andb_prop in H. lia. Qed.
 
 (* ------------------------------------------------------------------ trees *)
 Lemma tree_all_impl : forall (P Q : Z -> Z -> Prop) t,
@@ -361,12 +369,39 @@ Proof.
   match goal with |- context [if ?c then _ else _] => destruct c end; cbn [set_bits]; eexists; reflexivity.
 Qed.
 
-(** a single-point node b never reaches the general (node-split) clause *)
-Lemma adjoin_all : forall (Qs Qe : Z -> Prop) b, t_start b = t_end b -> Qs (t_start b) -> Qe (t_end b) ->
-  forall a, tree_all (fun s e => Qs s /\ Qe e) a -> tree_all (fun s e => Qs s /\ Qe e) (adjoin_node a b).
+Lemma is_empty_nmem : forall bs be bb bl br m, is_empty (Node bs be bb bl br) = true -> nmem bs be bb m = false.
 Proof.
-  intros Qs Qe b Hpt Hs He. induction a as [|s e bits l IHl r IHr]; intro Ha; [exact I|].
+  intros bs be bb bl br m H. cbn [is_empty] in H. destruct bb as [x|]; [|discriminate].
+  cbn [andb] in H. apply andb_prop in H. destruct H as [H _]. apply andb_prop in H. destruct H as [H _].
+  apply Z.eqb_eq in H. subst x. unfold nmem. rewrite Z.testbit_0_l. apply andb_false_r.
+Qed.
+
+(* ------------------------------------------------------------------ T7: iset-adjoin-node! for any node b (all clauses, incl. node-split) *)
+Lemma extract_shape : forall b s' e', exists xs xe xb,
+  node_extract b s' e' = Node xs xe xb Nil Nil /\ s' <= xs /\ xe <= e'.
+Proof.
+  intros b s' e'. unfold node_extract. destruct (t_bits b) as [nb|].
+  - eexists _, _, _. split; [reflexivity|]. lia.
+  - eexists _, _, _. split; [reflexivity|]. lia.
+Qed.
+
+Lemma top_cases : forall s e bits l r mid,
+  adjoin_node_top (Node s e bits l r) mid = Node (t_start mid) (t_end mid) (t_bits mid) Nil Nil \/
+  exists bits', adjoin_node_top (Node s e bits l r) mid = Node s e bits' l r.
+Proof.
+  intros. unfold adjoin_node_top. destruct (is_empty (Node s e bits l r)); [left; reflexivity|]. right.
+  destruct (is_empty mid); [eexists; reflexivity|].
+  match goal with |- context [if ?c then _ else _] => destruct c end; [apply inside_shape | eexists; reflexivity].
+Qed.
+
+Lemma adjoin_all_gen : forall (Qs Qe : Z -> Prop),
+  (forall x y, Qs x -> x <= y -> Qs y) -> (forall x y, Qe x -> y <= x -> Qe y) ->
+  forall a b, Qs (t_start b) -> Qe (t_end b) -> tree_all (fun s e => s <= e) a ->
+  tree_all (fun s e => Qs s /\ Qe e) a -> tree_all (fun s e => Qs s /\ Qe e) (adjoin_node a b).
+Proof.
+  intros Qs Qe HQs HQe. induction a as [|s e bits l IHl r IHr]; intros b Hs He Hle Ha; [exact I|].
   rewrite adjoin_node_eq. cbv zeta. cbn [tree_all] in Ha. destruct Ha as ((Ha1 & Ha2) & Hal & Har).
+  cbn [tree_all] in Hle. destruct Hle as (Hse & Hlel & Hler).
   destruct (is_empty (Node s e bits l r)); [cbn; auto|].
   destruct (is_empty b); [cbn [tree_all]; auto|].
   destruct (Z.ltb_spec (t_end b) s) as [C1|C1].
@@ -377,113 +412,290 @@ Proof.
   { destruct (should_merge_right (Node s e bits l r) b).
     - destruct (merge_right_shape s e bits l r b) as [x ->]. cbn [tree_all]. auto.
     - cbn [tree_all]. repeat split; auto. destruct r; [cbn; auto|]. cbn [adjoin_child]. auto. }
-  rewrite Z.geb_leb. destruct (Z.leb_spec s (t_start b)) as [C3|C3]; [|lia].
-  destruct (Z.leb_spec (t_end b) e) as [C4|C4]; [|lia]. cbn [andb].
-  destruct (inside_shape s e bits l r b) as [x ->]. cbn [tree_all]. auto.
+  destruct ((t_start b >=? s) && (t_end b <=? e)).
+  { destruct (inside_shape s e bits l r b) as [x ->]. cbn [tree_all]. auto. }
+  unfold node_split. cbv beta iota.
+  (* left part *)
+  assert (A1 : exists l1,
+    match (if t_start b <? s then Some (node_extract b (t_start b) (s - 1)) else None) with
+    | Some x => Node s e bits (adjoin_child (fun c => adjoin_node c x) l x) r
+    | None => Node s e bits l r
+    end = Node s e bits l1 r /\ tree_all (fun s e => Qs s /\ Qe e) l1).
+  { destruct (t_start b <? s); [|exists l; auto].
+    destruct (extract_shape b (t_start b) (s - 1)) as (xs & xe & xb & Ex & Hxs & Hxe). rewrite Ex.
+    eexists. split; [reflexivity|].
+    assert (Qs xs) by (apply (HQs (t_start b)); assumption).
+    assert (Qe xe) by (apply (HQe e); [assumption|lia]).
+    destruct l; [cbn; auto|]. cbn [adjoin_child]. apply IHl; assumption. }
+  destruct A1 as (l1 & -> & Hl1).
+  destruct (extract_shape b s e) as (ms & me & mb & Em & Hms & Hme). rewrite Em.
+  assert (A2 : exists s2 e2 b2 l2 r2, adjoin_node_top (Node s e bits l1 r) (Node ms me mb Nil Nil) = Node s2 e2 b2 l2 r2 /\
+            tree_all (fun s e => Qs s /\ Qe e) (Node s2 e2 b2 l2 r2)).
+  { destruct (top_cases s e bits l1 r (Node ms me mb Nil Nil)) as [E|[bits' E]]; rewrite E.
+    - cbn [t_start t_end t_bits]. eexists _, _, _, _, _. split; [reflexivity|]. cbn [tree_all].
+      repeat split; auto; [apply (HQs s) | apply (HQe e)]; assumption.
+    - eexists _, _, _, _, _. split; [reflexivity|]. cbn [tree_all]. auto. }
+  destruct A2 as (s2 & e2 & b2 & l2 & r2 & -> & H2).
+  destruct (t_end b >? e); [|exact H2].
+  destruct (extract_shape b (e + 1) (t_end b)) as (xs & xe & xb & Ex & Hxs & Hxe). rewrite Ex.
+  cbn [set_right t_right]. cbn [tree_all] in H2. destruct H2 as (H21 & H22 & H23).
+  assert (Qs xs) by (apply (HQs s); [assumption|lia]).
+  assert (Qe xe) by (apply (HQe (t_end b)); assumption).
+  cbn [tree_all]. repeat split; try tauto.
+  destruct r2; [cbn; auto|]. apply IHr; assumption.
 Qed.
 
-Lemma adjoin_all_ends : forall (Q : Z -> Prop) b a, t_start b = t_end b -> Q (t_end b) ->
-  tree_all (fun _ e => Q e) a -> tree_all (fun _ e => Q e) (adjoin_node a b).
+Lemma il_nonneg : forall x, 0 <= integer_length x.
 Proof.
-  intros Q b a Hpt HQ Ha.
-  apply (tree_all_impl (fun s e => True /\ Q e)); [intros s e [_ H]; exact H|].
-  apply adjoin_all; auto. eapply tree_all_impl; [|exact Ha]. cbn beta. auto.
+  intro x. unfold integer_length. destruct (_ =? 0); [lia|]. pose proof (Z.log2_nonneg (if x <? 0 then - x - 1 else x)). lia.
 Qed.
-Lemma adjoin_all_starts : forall (Q : Z -> Prop) b a, t_start b = t_end b -> Q (t_start b) ->
-  tree_all (fun s _ => Q s) a -> tree_all (fun s _ => Q s) (adjoin_node a b).
+Lemma il_high : forall x i, 0 <= x -> integer_length x <= i -> Z.testbit x i = false.
 Proof.
-  intros Q b a Hpt HQ Ha.
-  apply (tree_all_impl (fun s e => Q s /\ True)); [intros s e [H _]; exact H|].
-  apply adjoin_all; auto. eapply tree_all_impl; [|exact Ha]. cbn beta. auto.
+  intros x i Hx Hi. unfold integer_length in Hi. destruct (Z.ltb_spec x 0) as [C|C]; [lia|].
+  destruct (Z.eqb_spec x 0) as [E|E]; [subst x; apply Z.testbit_0_l|].
+  apply Z.bits_above_log2; lia.
 Qed.
-
-Lemma is_empty_nmem : forall bs be bb bl br m, is_empty (Node bs be bb bl br) = true -> nmem bs be bb m = false.
+Lemma il_le : forall x k, 0 <= k -> 0 <= x < 2 ^ k -> integer_length x <= k.
 Proof.
-  intros bs be bb bl br m H. cbn [is_empty] in H. destruct bb as [x|]; [|discriminate].
-  cbn [andb] in H. apply andb_prop in H. destruct H as [H _]. apply andb_prop in H. destruct H as [H _].
-  apply Z.eqb_eq in H. subst x. unfold nmem. rewrite Z.testbit_0_l. apply andb_false_r.
+  intros x k Hk Hx. unfold integer_length. destruct (Z.ltb_spec x 0) as [C|C]; [lia|].
+  destruct (Z.eqb_spec x 0) as [E|E]; [lia|].
+  assert (Z.log2 x < k) by (apply Z.log2_lt_pow2; lia). lia.
 Qed.
 
-Lemma adjoin_node_pt : forall bs be bb bl br, bs <= be -> bits_ok bs be bb -> bs = be ->
-  forall a, wf a -> a <> Nil ->
-  wf (adjoin_node a (Node bs be bb bl br)) /\ adjoin_node a (Node bs be bb bl br) <> Nil /\
-  forall m, contains (adjoin_node a (Node bs be bb bl br)) m = nmem bs be bb m || contains a m.
+(** iset-node-extract: the part of the node b inside [s',e'] *)
+Lemma extract_ok : forall bs be bb bl br s' e',
+  bs <= be -> bits_ok bs be bb -> s' <= e' -> s' <= be -> bs <= e' ->
+  exists xs xe xb, node_extract (Node bs be bb bl br) s' e' = Node xs xe xb Nil Nil /\
+    xs <= xe /\ bits_ok xs xe xb /\ s' <= xs /\ xe <= e' /\
+    forall m, nmem xs xe xb m = (s' <=? m) && (m <=? e') && nmem bs be bb m.
 Proof.
-  intros bs be bb bl br Hbse Hbok Hpt. set (b := Node bs be bb bl br).
-  induction a as [|s e bits l IHl r IHr]; intros Hwf Hn; [congruence|]. clear Hn.
-  rewrite adjoin_node_eq. cbv zeta.
+  intros bs be bb bl br s' e' Hbse Hbok Hse' H1 H2. unfold node_extract. cbn [t_bits t_start t_end].
+  destruct bb as [nb|].
+  - set (bits := Z.land (Z.shiftl nb (bs - s')) (range_bits s' e')).
+    cbn [bits_ok] in Hbok. apply small_iff in Hbok; [|lia]. destruct Hbok as [Hnb Hnbhi].
+    assert (Hspec : forall i, 0 <= i -> Z.testbit bits i = Z.testbit nb (i + s' - bs) && (i <? e' - s' + 1)).
+    { intros i Hi. unfold bits. rewrite Z.land_spec, Z.shiftl_spec, range_bits_spec by lia.
+      replace (i - (bs - s')) with (i + s' - bs) by lia.
+      destruct (Z.leb_spec 0 i); [reflexivity|lia]. }
+    assert (Hb0 : 0 <= bits).
+    { unfold bits. apply Z.land_nonneg. right. apply range_bits_nonneg. lia. }
+    assert (Hbsmall : 0 <= bits < 2 ^ (e' - s' + 1)).
+    { apply small_iff; [lia|]. split; [exact Hb0|]. intros i Hi. rewrite Hspec by lia.
+      destruct (Z.ltb_spec i (e' - s' + 1)); [lia|apply andb_false_r]. }
+    pose proof (il_le bits (e' - s' + 1) ltac:(lia) Hbsmall) as Hil. pose proof (il_nonneg bits) as Hil0.
+    set (ne := Z.min e' (Z.max s' (s' + integer_length bits - 1))).
+    assert (Hhigh : forall i, ne - s' + 1 <= i -> Z.testbit bits i = false).
+    { intros i Hi. apply il_high; [exact Hb0|]. unfold ne in Hi. lia. }
+    exists s', ne, (Some bits). split; [reflexivity|]. split; [unfold ne; lia|]. split.
+    { cbn [bits_ok]. apply small_iff; [unfold ne; lia|]. split; assumption. }
+    split; [lia|]. split; [unfold ne; lia|].
+    intro m. unfold nmem. destruct (Z.leb_spec s' m) as [Hm|Hm]; cbn [andb]; [|reflexivity].
+    assert (HX : Z.testbit nb (m - bs) = true -> bs <= m <= be).
+    { intro T. destruct (Z_lt_le_dec (m - bs) 0) as [Hn|Hn]; [rewrite Z.testbit_neg_r in T by lia; discriminate|].
+      destruct (Z_lt_le_dec (m - bs) (be - bs + 1)) as [Hn2|Hn2]; [lia|]. rewrite (Hnbhi _ Hn2) in T. discriminate. }
+    destruct (Z.leb_spec m ne) as [Hm2|Hm2]; cbn [andb].
+    + rewrite Hspec by lia. replace (m - s' + s' - bs) with (m - bs) by lia.
+      destruct (Z.testbit nb (m - bs)) eqn:T.
+      * specialize (HX eq_refl). zb; cbn [andb]; try reflexivity; unfold ne in *; lia.
+      * cbn [andb]. rewrite !andb_false_r. reflexivity.
+    + pose proof (Hhigh (m - s') ltac:(lia)) as Hf. rewrite Hspec in Hf by lia.
+      replace (m - s' + s' - bs) with (m - bs) in Hf by lia.
+      destruct (Z.testbit nb (m - bs)) eqn:T; [|rewrite !andb_false_r; reflexivity].
+      specialize (HX eq_refl). cbn [andb] in Hf. revert Hf. zb; cbn [andb]; intros; try reflexivity; try discriminate; lia.
+  - exists (Z.max s' bs), (Z.min e' be), None. split; [reflexivity|]. split; [lia|]. split; [exact I|].
+    split; [lia|]. split; [lia|]. intro m. unfold nmem. zb; cbn [andb]; try reflexivity; lia.
+Qed.
+
+Definition adj_spec (a : tree) (bs be : Z) (bb : option Z) (r' : tree) : Prop :=
+  wf r' /\ r' <> Nil /\ forall m, contains r' m = nmem bs be bb m || contains a m.
+
+Ltac bfin :=
+  zb; cbn [andb orb negb]; rewrite ?orb_true_r, ?orb_false_r, ?andb_true_r, ?andb_false_r;
+  try reflexivity; try lia; try discriminate.
+Ltac nmem_case bs be bb m :=
+  let NR := fresh "NR" in let Nm := fresh "Nm" in
+  pose proof (nmem_range bs be bb m) as NR; destruct (nmem bs be bb m) eqn:Nm; [specialize (NR eq_refl)|clear NR].
+
+Lemma child_left_ok : forall c xs xe xb xl xr s,
+  wf c -> tree_all (fun _ e' => e' < s) c -> xs <= xe -> bits_ok xs xe xb -> xe < s ->
+  (c <> Nil -> adj_spec c xs xe xb (adjoin_node c (Node xs xe xb xl xr))) ->
+  let c' := match c with Nil => copy_node (Node xs xe xb xl xr) | Node _ _ _ _ _ => adjoin_node c (Node xs xe xb xl xr) end in
+  wf c' /\ tree_all (fun _ e' => e' < s) c' /\ forall m, contains c' m = nmem xs xe xb m || contains c m.
+Proof.
+  intros c xs xe xb xl xr s Hw Ht Hx1 Hx2 Hx3 IH. destruct c as [|cs ce cb cl cr].
+  - cbn zeta. unfold copy_node. cbn [t_start t_end t_bits]. split; [cbn [wf tree_all]; repeat split; assumption|].
+    split; [cbn [tree_all]; repeat split; assumption|]. intro m. rewrite nmem_contains. cbn [contains]. rewrite orb_false_r. reflexivity.
+  - cbn zeta. destruct (IH ltac:(discriminate)) as (W & _ & Cn). split; [exact W|]. split; [|exact Cn].
+    apply (tree_all_impl (fun s' e' => True /\ e' < s)); [intros ? ? [_ H]; exact H|].
+    apply adjoin_all_gen; [auto | intros; lia | exact I | exact Hx3 | apply wf_all_le; exact Hw |].
+    eapply tree_all_impl; [|exact Ht]. cbn beta. auto.
+Qed.
+
+Lemma child_right_ok : forall c xs xe xb xl xr e,
+  wf c -> tree_all (fun s' _ => e < s') c -> xs <= xe -> bits_ok xs xe xb -> e < xs ->
+  (c <> Nil -> adj_spec c xs xe xb (adjoin_node c (Node xs xe xb xl xr))) ->
+  let c' := match c with Nil => copy_node (Node xs xe xb xl xr) | Node _ _ _ _ _ => adjoin_node c (Node xs xe xb xl xr) end in
+  wf c' /\ tree_all (fun s' _ => e < s') c' /\ forall m, contains c' m = nmem xs xe xb m || contains c m.
+Proof.
+  intros c xs xe xb xl xr e Hw Ht Hx1 Hx2 Hx3 IH. destruct c as [|cs ce cb cl cr].
+  - cbn zeta. unfold copy_node. cbn [t_start t_end t_bits]. split; [cbn [wf tree_all]; repeat split; assumption|].
+    split; [cbn [tree_all]; repeat split; assumption|]. intro m. rewrite nmem_contains. cbn [contains]. rewrite orb_false_r. reflexivity.
+  - cbn zeta. destruct (IH ltac:(discriminate)) as (W & _ & Cn). split; [exact W|]. split; [|exact Cn].
+    apply (tree_all_impl (fun s' e' => e < s' /\ True)); [intros ? ? [H _]; exact H|].
+    apply adjoin_all_gen; [intros; lia | auto | exact Hx3 | exact I | apply wf_all_le; exact Hw |].
+    eapply tree_all_impl; [|exact Ht]. cbn beta. auto.
+Qed.
+
+Lemma adjoin_node_ok : forall a, wf a -> a <> Nil ->
+  forall bs be bb bl br, bs <= be -> bits_ok bs be bb ->
+  adj_spec a bs be bb (adjoin_node a (Node bs be bb bl br)).
+Proof.
+  induction a as [|s e bits l IHl r IHr]; intros Hwf Hn bs be bb bl br Hbse Hbok; [congruence|]. clear Hn.
   assert (Hwf' := Hwf). cbn [wf] in Hwf'. destruct Hwf' as (Hse & Hok & Hl & Hr & Hwl & Hwr).
+  unfold adj_spec. rewrite adjoin_node_eq. cbv zeta.
   destruct (is_empty (Node s e bits l r)) eqn:Ea.
-  { unfold adjoin_clause_empty, b. cbn [t_start t_end t_bits]. split; [|split; [discriminate|]].
+  { unfold adjoin_clause_empty. cbn [t_start t_end t_bits]. split; [|split; [discriminate|]].
     - cbn [wf tree_all]. repeat split; assumption.
     - intro m. rewrite nmem_contains, (is_empty_contains _ m Ea). rewrite orb_false_r. reflexivity. }
-  destruct (is_empty b) eqn:Eb.
-  { split; [exact Hwf|]. split; [discriminate|]. intro m. unfold b in Eb.
+  destruct (is_empty (Node bs be bb bl br)) eqn:Eb.
+  { split; [exact Hwf|]. split; [discriminate|]. intro m.
     rewrite (is_empty_nmem _ _ _ _ _ m Eb). reflexivity. }
-  change (t_end b) with be. change (t_start b) with bs.
+  cbn [t_start t_end].
   destruct (Z.ltb_spec be s) as [C1|C1].
-  { destruct (should_merge_left (Node s e bits l r) b) eqn:M.
+  { destruct (should_merge_left (Node s e bits l r) (Node bs be bb bl br)) eqn:M.
     - assert (Hl' : tree_all (fun _ e' => e' < bs) l).
-      { unfold should_merge_left in M. apply andb_prop in M. destruct M as [_ M]. cbn [t_left] in M.
-        destruct l as [|ls le lb ll lr]; [exact I|]. change (t_start b) with bs in M.
+      { unfold should_merge_left in M. apply andb_prop in M. destruct M as [_ M]. cbn [t_left t_start] in M.
+        destruct l as [|ls le lb ll lr]; [exact I|].
         apply Z.gtb_lt in M. eapply tree_all_impl; [|apply max_end_bound; [exact Hwl|discriminate]].
         cbn beta. intros; lia. }
       destruct (merge_left_ok s e bits l r bs be bb bl br Hwf Hbse Hbok C1 Hl') as [Hw Hc].
       split; [exact Hw|]. split; [|exact Hc].
-      destruct (merge_left_shape s e bits l r b) as [x E]. fold b. rewrite E. discriminate.
-    - split; [|split; [discriminate|]].
-      + cbn [wf]. repeat split; try assumption.
-        * destruct l as [|ls le lb ll lr]; [cbn; lia|]. cbn [adjoin_child].
-          apply adjoin_all_ends; [cbn; exact Hpt | cbn; exact C1 | exact Hl].
-        * destruct l as [|ls le lb ll lr]; [unfold b; cbn [adjoin_child copy_node t_start t_end t_bits wf tree_all]; repeat split; assumption|].
-          cbn [adjoin_child]. apply IHl; [exact Hwl|discriminate].
-      + intro m. cbn [contains]. destruct (Z.ltb_spec m s) as [Hm|Hm].
-        * destruct l as [|ls le lb ll lr].
-          -- cbn [adjoin_child]. unfold copy_node, b. cbn [t_start t_end t_bits]. rewrite nmem_contains. cbn [contains]. rewrite orb_false_r. reflexivity.
-          -- cbn [adjoin_child]. apply IHl; [exact Hwl|discriminate].
-        * unfold nmem. zb; cbn [andb orb]; try reflexivity; lia. }
+      destruct (merge_left_shape s e bits l r (Node bs be bb bl br)) as [x E]. rewrite E. discriminate.
+    - unfold adjoin_child.
+      destruct (child_left_ok l bs be bb bl br s Hwl Hl Hbse Hbok C1
+                  (fun Hn => IHl Hwl Hn bs be bb bl br Hbse Hbok)) as (W & T & Cn).
+      split; [|split; [discriminate|]].
+      + cbn [wf]. repeat split; assumption.
+      + intro m. cbn [contains]. rewrite Cn. unfold nmem. bfin. }
   rewrite Z.gtb_ltb. destruct (Z.ltb_spec e bs) as [C2|C2].
-  { destruct (should_merge_right (Node s e bits l r) b) eqn:M.
+  { destruct (should_merge_right (Node s e bits l r) (Node bs be bb bl br)) eqn:M.
     - assert (Hr' : tree_all (fun s' _ => be < s') r).
-      { unfold should_merge_right in M. apply andb_prop in M. destruct M as [_ M]. cbn [t_right] in M.
-        destruct r as [|rs re rb rl rr]; [exact I|]. change (t_end b) with be in M.
+      { unfold should_merge_right in M. apply andb_prop in M. destruct M as [_ M]. cbn [t_right t_end] in M.
+        destruct r as [|rs re rb rl rr]; [exact I|].
         apply Z.ltb_lt in M. eapply tree_all_impl; [|apply min_start_bound; [exact Hwr|discriminate]].
         cbn beta. intros; lia. }
       destruct (merge_right_ok s e bits l r bs be bb bl br Hwf Hbse Hbok C2 Hr') as [Hw Hc].
       split; [exact Hw|]. split; [|exact Hc].
-      destruct (merge_right_shape s e bits l r b) as [x E]. fold b. rewrite E. discriminate.
-    - split; [|split; [discriminate|]].
-      + cbn [wf]. repeat split; try assumption.
-        * destruct r as [|rs re rb rl rr]; [cbn; lia|]. cbn [adjoin_child].
-          apply adjoin_all_starts; [cbn; exact Hpt | cbn; exact C2 | exact Hr].
-        * destruct r as [|rs re rb rl rr]; [unfold b; cbn [adjoin_child copy_node t_start t_end t_bits wf tree_all]; repeat split; assumption|].
-          cbn [adjoin_child]. apply IHr; [exact Hwr|discriminate].
-      + intro m. cbn [contains]. destruct (Z.ltb_spec m s) as [Hm|Hm].
-        * unfold nmem. zb; cbn [andb orb]; try reflexivity; lia.
-        * rewrite Z.gtb_ltb. destruct (Z.ltb_spec e m) as [Hm2|Hm2].
-          -- destruct r as [|rs re rb rl rr].
-             ++ cbn [adjoin_child]. unfold copy_node, b. cbn [t_start t_end t_bits]. rewrite nmem_contains. cbn [contains]. rewrite orb_false_r. reflexivity.
-             ++ cbn [adjoin_child]. apply IHr; [exact Hwr|discriminate].
-          -- unfold nmem. zb; cbn [andb orb]; try reflexivity; lia. }
-  rewrite Z.geb_leb. destruct (Z.leb_spec s bs) as [C3|C3]; [|lia].
-  destruct (Z.leb_spec be e) as [C4|C4]; [|lia]. cbn [andb].
-  destruct (inside_ok s e bits l r bs be bb bl br Hwf Hbse Hbok C3 C4) as [Hw Hc].
-  split; [exact Hw|]. split; [|exact Hc].
-  destruct (inside_shape s e bits l r b) as [x E]. fold b. rewrite E. discriminate.
+      destruct (merge_right_shape s e bits l r (Node bs be bb bl br)) as [x E]. rewrite E. discriminate.
+    - unfold adjoin_child.
+      destruct (child_right_ok r bs be bb bl br e Hwr Hr Hbse Hbok C2
+                  (fun Hn => IHr Hwr Hn bs be bb bl br Hbse Hbok)) as (W & T & Cn).
+      split; [|split; [discriminate|]].
+      + cbn [wf]. repeat split; assumption.
+      + intro m. cbn [contains]. rewrite Cn. unfold nmem. bfin. }
+  rewrite !Z.geb_leb.
+  destruct ((s <=? bs) && (be <=? e)) eqn:C34.
+  { apply andb_prop in C34. destruct C34 as [C3 C4]. apply Z.leb_le in C3, C4.
+    destruct (inside_ok s e bits l r bs be bb bl br Hwf Hbse Hbok C3 C4) as [Hw Hc].
+    split; [exact Hw|]. split; [|exact Hc].
+    destruct (inside_shape s e bits l r (Node bs be bb bl br)) as [x E]. rewrite E. discriminate. }
+  (* general case *)
+  unfold node_split. cbn [t_start t_end]. cbv beta iota. unfold adjoin_child.
+  match goal with |- context [adjoin_node_top ?X ?M] => set (A1 := X) in *; set (MID := M) in * end.
+  assert (HA1 : exists l1, A1 = Node s e bits l1 r /\ wf (Node s e bits l1 r) /\
+            forall m, contains (Node s e bits l1 r) m = ((m <? s) && nmem bs be bb m) || contains (Node s e bits l r) m).
+  { unfold A1. destruct (Z.ltb_spec bs s) as [L|L].
+    - destruct (extract_ok bs be bb bl br bs (s - 1) Hbse Hbok ltac:(lia) ltac:(lia) ltac:(lia))
+        as (xs & xe & xb & Ex & Hx1 & Hx2 & Hx3 & Hx4 & Hx5). rewrite Ex.
+      destruct (child_left_ok l xs xe xb Nil Nil s Hwl Hl Hx1 Hx2 ltac:(lia)
+                  (fun Hn => IHl Hwl Hn xs xe xb Nil Nil Hx1 Hx2)) as (W & T & Cn).
+      eexists. split; [reflexivity|]. split; [cbn [wf]; repeat split; assumption|].
+      intro m. cbn [contains]. rewrite Cn, Hx5. nmem_case bs be bb m; bfin.
+    - exists l. split; [reflexivity|]. split; [exact Hwf|]. intro m. nmem_case bs be bb m; bfin. }
+  destruct HA1 as (l1 & EA1 & W1 & Cn1). clearbody A1. subst A1.
+  destruct (extract_ok bs be bb bl br s e Hbse Hbok Hse C1 C2)
+    as (ms & me & mb & Em & Hm1 & Hm2 & Hm3 & Hm4 & Hm5).
+  unfold MID in *. clear MID. rewrite Em.
+  assert (HA2 : exists s2 e2 b2 l2 r2,
+            adjoin_node_top (Node s e bits l1 r) (Node ms me mb Nil Nil) = Node s2 e2 b2 l2 r2 /\
+            wf (Node s2 e2 b2 l2 r2) /\ e2 <= e /\
+            (forall m, contains (Node s2 e2 b2 l2 r2) m = ((m <=? e) && nmem bs be bb m) || contains (Node s e bits l r) m) /\
+            (forall m, contains r2 m = contains r m) /\ (r2 = r \/ r2 = Nil)).
+  { unfold adjoin_node_top. destruct (is_empty (Node s e bits l1 r)) eqn:E1.
+    - unfold adjoin_clause_empty. cbn [t_start t_end t_bits]. eexists _, _, _, _, _. split; [reflexivity|].
+      split; [cbn [wf tree_all]; repeat split; assumption|]. split; [lia|]. split; [|split; [|right; reflexivity]].
+      + intro m. pose proof (is_empty_contains _ m E1) as F. rewrite Cn1 in F.
+        apply orb_false_elim in F. destruct F as [F1 F2]. rewrite nmem_contains, Hm5, F2. revert F1.
+        nmem_case bs be bb m; bfin.
+      + intro m. cbn [is_empty] in E1. apply andb_prop in E1. destruct E1 as [_ E1].
+        rewrite (is_empty_contains r m E1). reflexivity.
+    - destruct (is_empty (Node ms me mb Nil Nil)) eqn:E2.
+      + eexists _, _, _, _, _. split; [reflexivity|]. split; [exact W1|]. split; [lia|].
+        split; [|split; [reflexivity|left; reflexivity]].
+        intro m. rewrite Cn1. pose proof (is_empty_nmem _ _ _ _ _ m E2) as F. rewrite Hm5 in F. revert F.
+        nmem_case bs be bb m; bfin.
+      + cbn [t_start t_end]. rewrite !Z.geb_leb.
+        destruct (Z.leb_spec s ms) as [K1|K1]; [|lia]. destruct (Z.leb_spec me e) as [K2|K2]; [|lia]. cbn [andb].
+        destruct (inside_ok s e bits l1 r ms me mb Nil Nil W1 Hm1 Hm2 K1 K2) as [Hw Hc].
+        destruct (inside_shape s e bits l1 r (Node ms me mb Nil Nil)) as [x E]. rewrite E in *.
+        eexists _, _, _, _, _. split; [reflexivity|]. split; [exact Hw|]. split; [lia|].
+        split; [|split; [reflexivity|left; reflexivity]].
+        intro m. rewrite Hc, Cn1, Hm5. nmem_case bs be bb m; bfin. }
+  destruct HA2 as (s2 & e2 & b2 & l2 & r2 & E2 & W2 & He2 & Cn2 & Hcr2 & Hr2). rewrite E2.
+  rewrite Z.gtb_ltb. destruct (Z.ltb_spec e be) as [R|R].
+  - destruct (extract_ok bs be bb bl br (e + 1) be Hbse Hbok ltac:(lia) ltac:(lia) ltac:(lia))
+      as (xs & xe & xb & Ex & Hx1 & Hx2 & Hx3 & Hx4 & Hx5). rewrite Ex.
+    cbn [set_right t_right].
+    assert (HR : let r' := match r2 with Nil => copy_node (Node xs xe xb Nil Nil)
+                                     | Node _ _ _ _ _ => adjoin_node r (Node xs xe xb Nil Nil) end in
+                 wf r' /\ tree_all (fun s' _ => e < s') r' /\ forall m, contains r' m = nmem xs xe xb m || contains r m).
+    { destruct Hr2 as [->| ->].
+      - apply (child_right_ok r xs xe xb Nil Nil e Hwr Hr Hx1 Hx2 ltac:(lia)
+                 (fun Hn => IHr Hwr Hn xs xe xb Nil Nil Hx1 Hx2)).
+      - cbn zeta. unfold copy_node. cbn [t_start t_end t_bits].
+        split; [cbn [wf tree_all]; repeat split; assumption|].
+        split; [cbn [tree_all]; repeat split; try exact I; lia|].
+        intro m. rewrite nmem_contains, <- (Hcr2 m). cbn [contains]. rewrite orb_false_r. reflexivity. }
+    cbv zeta in HR. destruct HR as (Wr & Tr & Cr).
+    cbn [wf] in W2. destruct W2 as (W21 & W22 & W23 & W24 & W25 & W26).
+    split; [|split; [discriminate|]].
+    + cbn [wf]. repeat split; try assumption.
+      eapply tree_all_impl; [|exact Tr]. cbn beta. intros; lia.
+    + intro m. pose proof (Cn2 m) as K. cbn [contains] in K. cbn [contains].
+      destruct (Z.ltb_spec m s2) as [Q1|Q1].
+      * rewrite K. nmem_case bs be bb m; bfin.
+      * rewrite Z.gtb_ltb in *. destruct (Z.ltb_spec e2 m) as [Q2|Q2].
+        -- rewrite Cr, Hx5. rewrite Hcr2 in K. rewrite K. nmem_case bs be bb m; bfin.
+        -- rewrite K. nmem_case bs be bb m; bfin.
+  - split; [exact W2|]. split; [discriminate|]. intro m. rewrite Cn2. nmem_case bs be bb m; bfin.
+Qed.
+
+Theorem adjoin_node_wf : forall a b, wf a -> a <> Nil -> b <> Nil -> node_ok b ->
+  wf (adjoin_node a b) /\ adjoin_node a b <> Nil.
+Proof.
+  intros a [|bs be bb bl br] Hwf Hn Hb [H1 H2]; [congruence|]. cbn [t_start t_end t_bits] in *.
+  destruct (adjoin_node_ok a Hwf Hn bs be bb bl br H1 H2) as (W & N & _). auto.
+Qed.
+Theorem adjoin_node_contains : forall a b m, wf a -> a <> Nil -> b <> Nil -> node_ok b ->
+  contains (adjoin_node a b) m = contains (copy_node b) m || contains a m.
+Proof.
+  intros a [|bs be bb bl br] m Hwf Hn Hb [H1 H2]; [congruence|]. cbn [t_start t_end t_bits] in *.
+  destruct (adjoin_node_ok a Hwf Hn bs be bb bl br H1 H2) as (_ & _ & C).
+  unfold copy_node. cbn [t_start t_end t_bits]. rewrite nmem_contains. apply C.
 Qed.
 
 (* ------------------------------------------------------------------ T1, T2: iset-adjoin1! *)
 Theorem adjoin1_wf : forall t n, wf t -> t <> Nil -> wf (adjoin1 t n) /\ adjoin1 t n <> Nil.
 Proof.
   intros t n Hwf Hn. unfold adjoin1.
-  destruct (adjoin_node_pt n n None Nil Nil ltac:(lia) I eq_refl t Hwf Hn) as (H1 & H2 & _). auto.
+  destruct (adjoin_node_ok t Hwf Hn n n None Nil Nil ltac:(lia) I) as (H1 & H2 & _). auto.
 Qed.
 
 Theorem adjoin1_contains : forall t n m, wf t -> t <> Nil ->
   contains (adjoin1 t n) m = (m =? n) || contains t m.
 Proof.
   intros t n m Hwf Hn. unfold adjoin1.
-  destruct (adjoin_node_pt n n None Nil Nil ltac:(lia) I eq_refl t Hwf Hn) as (_ & _ & H).
+  destruct (adjoin_node_ok t Hwf Hn n n None Nil Nil ltac:(lia) I) as (_ & _ & H).
   rewrite H. f_equal. unfold nmem. zb; cbn [andb]; try reflexivity; lia.
 Qed.
 
@@ -753,9 +965,6 @@ Proof.
   intros s e [[|p|p]|]; cbn [node_elems]; [constructor | apply pos_elems_sorted | constructor | apply zrange_sorted].
 Qed.
 
-Lemma nmem_range : forall s e bits m, nmem s e bits m = true -> s <= m <= e.
-Proof. intros s e bits m H. unfold nmem in H. apply andb_prop in H. destruct H as [H _]. apply andb_prop in H. lia. Qed.
-
 Lemma contains_lt : forall t x m, wf t -> tree_all (fun _ e => e < x) t -> contains t m = true -> m < x.
 Proof.
   intros t x m Hwf Ha Hc. destruct (Z_lt_le_dec m x) as [H|H]; [exact H|].
@@ -900,5 +1109,151 @@ Proof.
   intro H. apply to_list_spec in H. destruct H as [_ H]. specialize (H 500).
   assert (E : contains (fold_left adjoin1_bad [0; 1000; 500; 100; 200; 300; 400; 510] make_iset0) 500 = false)
     by (vm_compute; reflexivity).
-  rewrite E in H. assert (false = true) by (apply H; vm_compute; tauto). discriminate.
+  assert (L : to_list (fold_left adjoin1_bad [0; 1000; 500; 100; 200; 300; 400; 510] make_iset0) =
+              [0; 100; 200; 300; 400; 510; 500; 1000]) by (vm_compute; reflexivity).
+  rewrite E, L in H. assert (F : false = true) by (apply H; cbn [In]; do 6 right; left; reflexivity).
+  discriminate F.
 Qed.
+
+(* ------------------------------------------------------------------ T6: iset-size *)
+Lemma zrange_n_length : forall n s, length (zrange_n n s) = n.
+Proof. induction n as [|n IH]; intro s; cbn [zrange_n length]; [reflexivity|]. rewrite IH. reflexivity. Qed.
+
+Lemma pos_elems_length : forall p i, Z.of_nat (length (pos_elems p i)) = popcount_pos p.
+Proof.
+  induction p as [q IH|q IH|]; intro i; cbn [pos_elems popcount_pos length]; [|apply IH|reflexivity].
+  rewrite Nat2Z.inj_succ, IH. lia.
+Qed.
+
+Theorem size_spec : forall t, wf t -> iset_size t = Z.of_nat (length (to_list t)).
+Proof.
+  induction t as [|s e bits l IHl r IHr]; intro Hwf; [reflexivity|].
+  cbn [wf] in Hwf. destruct Hwf as (Hse & Hok & Hl & Hr & Hwl & Hwr).
+  cbn [iset_size to_list]. rewrite !app_length, !Nat2Z.inj_add, <- (IHl Hwl), <- (IHr Hwr).
+  unfold node_size. cbn [t_bits t_start t_end].
+  assert (E : Z.of_nat (length (node_elems s e bits)) =
+              match bits with Some b => bit_count b | None => 1 + (e - s) end).
+  { destruct bits as [[|p|p]|]; cbn [node_elems bit_count length]; try reflexivity.
+    - apply pos_elems_length.
+    - unfold zrange. rewrite zrange_n_length. lia. }
+  rewrite E. lia.
+Qed.
+
+Example ex_size : iset_size ex_tree = 8.
+Proof. rewrite size_spec by apply ex_tree_wf. vm_compute. reflexivity. Qed.
+
+(* ------------------------------------------------------------------ T7 (continued): adjoin_node_top, iset-union2! *)
+(** the recursive call of the general case on a itself only meets the two non-recursive clauses *)
+Theorem adjoin_node_top_eq : forall a b, a <> Nil -> t_start b <= t_end b ->
+  is_empty a = true \/ (t_start a <= t_start b /\ t_end b <= t_end a) ->
+  adjoin_node a b = adjoin_node_top a b.
+Proof.
+  intros [|s e bits l r] b Hn Hb H; [congruence|]. rewrite adjoin_node_eq. cbv zeta. unfold adjoin_node_top.
+  destruct (is_empty (Node s e bits l r)) eqn:Ea; [reflexivity|].
+  destruct (is_empty b); [reflexivity|].
+  destruct H as [H|[H1 H2]]; [discriminate|]. cbn [t_start t_end] in *.
+  destruct (Z.ltb_spec (t_end b) s) as [C1|C1]; [lia|].
+  rewrite Z.gtb_ltb. destruct (Z.ltb_spec e (t_start b)) as [C2|C2]; [lia|].
+  rewrite Z.geb_leb. destruct (Z.leb_spec s (t_start b)); [|lia]. destruct (Z.leb_spec (t_end b) e); [|lia].
+  reflexivity.
+Qed.
+
+(* iset-union2!: adjoin every node of b *)
+Lemma contains_node_bool : forall s e bits l r m, wf (Node s e bits l r) ->
+  contains (Node s e bits l r) m = contains l m || nmem s e bits m || contains r m.
+Proof.
+  intros. apply bool_ext. rewrite contains_node_iff by assumption. rewrite !orb_true_iff. tauto.
+Qed.
+
+Definition node_mem (m : Z) (n : tree) : bool := nmem (t_start n) (t_end n) (t_bits n) m.
+
+Lemma contains_nodes : forall b m, wf b -> contains b m = existsb (node_mem m) (nodes b).
+Proof.
+  induction b as [|s e bits l IHl r IHr]; intros m Hwf; [reflexivity|].
+  rewrite contains_node_bool by exact Hwf.
+  cbn [wf] in Hwf. destruct Hwf as (Hse & Hok & Hl & Hr & Hwl & Hwr).
+  cbn [nodes]. rewrite existsb_app. cbn [existsb]. rewrite <- IHl, <- IHr by assumption.
+  unfold node_mem at 1. cbn [t_start t_end t_bits]. rewrite orb_assoc. reflexivity.
+Qed.
+
+Lemma nodes_ok : forall b, wf b -> Forall (fun n => n <> Nil /\ node_ok n) (nodes b).
+Proof.
+  induction b as [|s e bits l IHl r IHr]; intro Hwf; [constructor|].
+  cbn [wf] in Hwf. destruct Hwf as (Hse & Hok & Hl & Hr & Hwl & Hwr).
+  cbn [nodes]. apply Forall_app. split; [auto|]. constructor; [|auto].
+  split; [discriminate|]. split; assumption.
+Qed.
+
+Lemma fold_adjoin_node_ok : forall ns a, wf a -> a <> Nil -> Forall (fun n => n <> Nil /\ node_ok n) ns ->
+  wf (fold_left adjoin_node ns a) /\ fold_left adjoin_node ns a <> Nil /\
+  forall m, contains (fold_left adjoin_node ns a) m = contains a m || existsb (node_mem m) ns.
+Proof.
+  induction ns as [|n ns IH]; intros a Hwf Hn Hns; cbn [fold_left existsb].
+  - split; [exact Hwf|]. split; [exact Hn|]. intro m. rewrite orb_false_r. reflexivity.
+  - inversion Hns as [|? ? [Hn1 Hn2] Hns']. subst.
+    destruct (adjoin_node_wf a n Hwf Hn Hn1 Hn2) as [W N].
+    destruct (IH (adjoin_node a n) W N Hns') as (W' & N' & C'). split; [exact W'|]. split; [exact N'|].
+    intro m. rewrite C', (adjoin_node_contains a n m Hwf Hn Hn1 Hn2).
+    destruct n as [|bs be bb bl br]; [congruence|].
+    unfold copy_node, node_mem. cbn [t_start t_end t_bits]. rewrite nmem_contains.
+    destruct (nmem bs be bb m), (contains a m); reflexivity.
+Qed.
+
+Theorem union2_wf : forall a b, wf a -> a <> Nil -> wf b -> wf (union2 a b) /\ union2 a b <> Nil.
+Proof.
+  intros a b Ha Hn Hb. destruct (fold_adjoin_node_ok (nodes b) a Ha Hn (nodes_ok b Hb)) as (W & N & _). auto.
+Qed.
+Theorem union2_contains : forall a b m, wf a -> a <> Nil -> wf b ->
+  contains (union2 a b) m = contains a m || contains b m.
+Proof.
+  intros a b m Ha Hn Hb. destruct (fold_adjoin_node_ok (nodes b) a Ha Hn (nodes_ok b Hb)) as (_ & _ & C).
+  unfold union2. rewrite C, <- contains_nodes by exact Hb. reflexivity.
+Qed.
+Theorem union2_to_list : forall a b, wf a -> a <> Nil -> wf b ->
+  to_list (union2 a b) = set_union (to_list a) (to_list b).
+Proof.
+  intros a b Ha Hn Hb. destruct (union2_wf a b Ha Hn Hb) as [W _]. apply canon_ext.
+  - apply to_list_spec. exact W.
+  - apply canon_union. apply to_list_spec. exact Ha.
+  - intro x. rewrite set_mem_union, <- !contains_set_mem by assumption. apply union2_contains; assumption.
+Qed.
+
+Definition ex_tree2 : tree := fold_left adjoin1 [90; 250; 505; 2000; 350] (Node 350 700 None Nil Nil).
+Example ex_tree2_wf : wf ex_tree2.
+Proof. apply wf_adjoin_list; [cbn; repeat split; lia | discriminate]. Qed.
+Example ex_union2 : wf (union2 ex_tree ex_tree2) /\
+  to_list (union2 ex_tree ex_tree2) = set_union (to_list ex_tree) (to_list ex_tree2) /\
+  contains (union2 ex_tree ex_tree2) 600 = true /\ contains (union2 ex_tree ex_tree2) 301 = false.
+Proof.
+  pose proof ex_tree_wf as [W1 N1]. pose proof ex_tree2_wf as W2.
+  split; [apply union2_wf; assumption|].
+  split; [apply union2_to_list; assumption|].
+  rewrite (union2_contains ex_tree ex_tree2 600 W1 N1 W2), (union2_contains ex_tree ex_tree2 301 W1 N1 W2).
+  split; vm_compute; reflexivity.
+Qed.
+(* the general (node-split) clause is exercised: a range node straddling the root of ex_tree *)
+Example ex_split : let b := Node 300 1200 None Nil Nil in
+  wf (adjoin_node ex_tree b) /\ contains (adjoin_node ex_tree b) 1100 = true /\
+  contains (adjoin_node ex_tree b) 299 = false /\
+  adjoin_node ex_tree b <> adjoin_node_top ex_tree b.
+Proof.
+  cbv zeta. split; [apply adjoin_node_wf; [apply ex_tree_wf | apply ex_tree_wf | discriminate | unfold node_ok; cbn [t_start t_end t_bits bits_ok]; split; [lia|exact I]]|].
+  split; [vm_compute; reflexivity|]. split; [vm_compute; reflexivity|]. vm_compute. discriminate.
+Qed.
+
+Print Assumptions adjoin1_wf.
+Print Assumptions adjoin1_contains.
+Print Assumptions delete1_wf.
+Print Assumptions delete1_contains.
+Print Assumptions to_list_spec.
+Print Assumptions adjoin1_to_list.
+Print Assumptions delete1_to_list.
+Print Assumptions contains_set_mem.
+Print Assumptions size_spec.
+Print Assumptions adjoin_node_wf.
+Print Assumptions adjoin_node_contains.
+Print Assumptions adjoin_node_top_eq.
+Print Assumptions union2_wf.
+Print Assumptions union2_contains.
+Print Assumptions union2_to_list.
+Print Assumptions bad_guard_loses_500.
